@@ -13,30 +13,40 @@ program, and rustc (type-checking against /repo/core) must agree with it program
        explicit conversion is accepted
 -/
 import Retro.Model.TypeAlg
+import Retro.Spec.TypeCorpus
 import Retro.Lemmas.TypeAlg
 
 namespace Retro.Props.C10
 open Retro.TypeAlg
+open Retro.TypeCorpus (Γ pairs Pair)
+open Retro.TypeCorpus.V
 set_option linter.unusedSimpArgs false
 
 /-! ## A. Soundness: accepted ⇒ no misuse -/
 
 /-- Unary API entries: if the crate has an impl for this operand type, the use is not a misuse. -/
 theorem ty1_sound (o : Op1) (x τ : Ty) (h : ty1 o x = some τ) : mis1 o x = none := by
-  cases o <;> cases x <;>
+  by_cases hz : o = .compZ
+  · subst hz
+    simp only [ty1] at h
+    split at h <;> simp [mis1] at h ⊢
+  cases o <;>
     first
-    | (simp_all [ty1, mis1, tyNeg, tyColour, Ty.isAngle, Ty.isScalar, Ty.space?, Ty.dim?, f32, projVec4]; done)
-    | (rename_i t; cases t <;>
-        simp_all [ty1, mis1, tyNeg, tyColour, Ty.isAngle, Ty.isScalar, Ty.space?, Ty.dim?, f32, projVec4]; done)
+    | (simp [mis1]; done)     -- entries for which no operand is a misuse
+    | (cases x <;>
+        first
+        | (simp_all [ty1, mis1, tyColour, Ty.isAngle, Ty.isScalar, Ty.space?, Ty.dim?, f32, projVec4]; done)
+        | (rename_i t; cases t <;>
+            simp_all [ty1, mis1, tyColour, Ty.isAngle, Ty.isScalar, Ty.space?, Ty.dim?, f32, projVec4]; done))
 
 theorem add_sound (x y τ : Ty) (h : tyAdd x y = some τ) : mis2 .add x y = none := by
   cases x <;> simp [tyAdd] at h
   case sc s =>
     obtain ⟨rfl, rfl⟩ := h
-    simp [mis2, tagClash, unitClash, Ty.space?, Ty.isPt, Ty.isAngle, Ty.isScalar]
+    exact mis2_add_self .add (by simp) _ rfl
   case angle =>
     obtain ⟨rfl, rfl⟩ := h
-    simp [mis2, tagClash, unitClash, Ty.space?, Ty.isPt, Ty.isAngle, Ty.isScalar]
+    exact mis2_add_self .add (by simp) _ rfl
   case vec s n sp =>
     split at h <;> simp at h
     rename_i d hd
@@ -119,7 +129,42 @@ theorem ty2_sound (o : Op2) (x y τ : Ty) (h : ty2 o x y = some τ) : mis2 o x y
   case mul => simp [mis2]
   case div => simp [mis2]
   case mMul => simp [mis2]
+  case mulAssign => simp [mis2]
+  case divAssign => simp [mis2]
   case pairOf => simp [mis2]
+  case addAssign =>
+    simp only [ty2] at h
+    split at h
+    · simp at h; obtain ⟨rfl, rfl⟩ := h
+      exact mis2_add_self .addAssign (by simp) _ rfl
+    · split at h <;> simp at h
+      rename_i d hd
+      rw [h.1]; exact mis2_diff .addAssign (by simp) _ d hd
+    · split at h <;> simp at h
+      rename_i d hd
+      rw [h.1]; exact mis2_diff .addAssign (by simp) _ d hd
+    · simp at h
+  case subAssign =>
+    simp only [ty2] at h
+    split at h
+    · simp at h; obtain ⟨rfl, rfl⟩ := h
+      exact mis2_self .subAssign (by simp) _
+    · split at h <;> simp at h
+      rename_i d hd
+      rw [h.1]; exact mis2_diff .subAssign (by simp) _ d hd
+    · split at h <;> simp at h
+      rename_i d hd
+      rw [h.1]; exact mis2_diff .subAssign (by simp) _ d hd
+    · simp at h
+  case vproj =>
+    simp only [ty2] at h
+    split at h <;> simp at h
+    rw [h.1.2]; exact mis2_self .vproj (by simp) _
+  case min =>
+    simp only [ty2] at h
+    split at h <;> simp at h
+    · rw [h.1]; exact mis2_self .min (by simp) _
+    · rw [h.1]; exact mis2_self .min (by simp) _
   case mAdd =>
     simp only [ty2] at h
     split at h <;> simp at h
@@ -209,6 +254,15 @@ theorem infer_sound (Γ : Ctx) (e : Expr) : ∀ τ, infer Γ e = some τ → mis
           simp only [ha, hb, hc] at h
           simp [misuses, ha, hb, hc, iha x ha, ihb y hb, ihc z hc, ty3_sound o x y z τ h]
 
+-- the hypothesis is satisfiable, e.g. by `m21.apply(&m12.apply(&v1))` in the corpus context …
+example : infer Γ (.bin .apply m21 (.bin .apply m12 v1)) = some (.vec .f32 3 (.real 3 (.named 1))) := by decide
+-- … and the conclusion is not vacuous: a rejected program does commit a misuse
+example : misuses Γ (.bin .apply m21 (.bin .apply m21 v1)) = [.applySource] := by decide
+example : ty1 .inverse (.mat 4 (.r2r 3 .unit (.named 1))) = some (.mat 4 (.r2r 3 (.named 1) .unit)) := by decide
+example : ty2 .sub (.pt .f32 3 (.real 3 .unit)) (.pt .f32 3 (.real 3 .unit)) = some (.vec .f32 3 (.real 3 .unit)) := by
+  decide
+example : ty3 .lerp (.col .f32 3 .rgb) (.col .f32 3 .rgb) f32 = some (.col .f32 3 .rgb) := by decide
+
 /-- An accepted program is classified `accept`, never as a misuse. -/
 theorem classify_accept (Γ : Ctx) (e : Expr) (τ : Ty) (h : infer Γ e = some τ) :
     classify Γ e = .accept τ := by
@@ -227,6 +281,8 @@ theorem classify_misuse (Γ : Ctx) (e : Expr) (m : Misuse) (h : classify Γ e = 
       simp at h; subst h
       exact ⟨hn, by simp [hm]⟩
     · simp at h
+
+example : classify Γ (.bin .add v1 v2) = .misuse .mixSpace := by decide
 
 /-- `Commits Γ e m`: some sub-expression of `e` whose operands are all well-typed commits misuse `m`
 (the same notion as `misuses`, as an inductive predicate over the sub-expression structure). -/
@@ -262,5 +318,467 @@ theorem infer_sound_commits (Γ : Ctx) (e : Expr) (τ : Ty) (h : infer Γ e = so
   have := commits_mem Γ e m hc
   rw [infer_sound Γ e τ h] at this
   simp at this
+
+
+example : Commits Γ (.un .len (.bin .add v1 v2)) .mixSpace :=
+  .unSub (.binHere (x := .vec .f32 3 (.real 3 (.named 1))) (y := .vec .f32 3 (.real 3 (.named 2))) rfl rfl rfl)
+
+/-! ## B. Exact characterisations: accepted iff the tags match -/
+
+/-- `v + w` on vectors: accepted iff `w` has `v`'s space tag and component count (and the component
+type `<Sc as Affine>::Diff`); the result is `v`'s type. -/
+theorem vec_add_iff (s s' : Sc) (n n' : Nat) (sp sp' : Tag) (τ : Ty) :
+    ty2 .add (.vec s n sp) (.vec s' n' sp') = some τ ↔
+      (scAffineDiff s = some s' ∧ n = n' ∧ sp = sp' ∧ τ = .vec s n sp) := by
+  cases s <;> cases s' <;> simp [ty2, tyAdd, affineDiff, scAffineDiff, scLinear] <;> grind
+
+theorem vec_sub_iff (s s' : Sc) (n n' : Nat) (sp sp' : Tag) (τ : Ty) :
+    ty2 .sub (.vec s n sp) (.vec s' n' sp') = some τ ↔
+      (scAffineDiff s = some s' ∧ n = n' ∧ sp = sp' ∧ τ = .vec s n sp) := by
+  cases s <;> cases s' <;> simp [ty2, tySub, affineDiff, scAffineDiff, scLinear] <;> grind
+
+theorem vec_mAdd_iff (s s' : Sc) (n n' : Nat) (sp sp' : Tag) (τ : Ty) :
+    ty2 .mAdd (.vec s n sp) (.vec s' n' sp') = some τ ↔
+      (scAffineDiff s = some s' ∧ n = n' ∧ sp = sp' ∧ τ = .vec s n sp) := by
+  cases s <;> cases s' <;> simp [ty2, affineDiff, scAffineDiff, scLinear] <;> grind
+
+/-- `v.sub(&w)`: both of the same type. -/
+theorem vec_mSub_iff (s s' : Sc) (n n' : Nat) (sp sp' : Tag) (τ : Ty) :
+    ty2 .mSub (.vec s n sp) (.vec s' n' sp') = some τ ↔
+      (∃ d, scAffineDiff s = some d ∧ s' = s ∧ n = n' ∧ sp = sp' ∧ τ = .vec d n sp) := by
+  cases s <;> cases s' <;> simp [ty2, affineDiff, scAffineDiff, scLinear] <;> grind
+
+theorem vec_dot_iff (s s' : Sc) (n n' : Nat) (sp sp' : Tag) (τ : Ty) :
+    ty2 .dot (.vec s n sp) (.vec s' n' sp') = some τ ↔
+      (scLinear s = true ∧ s' = s ∧ n = n' ∧ sp = sp' ∧ τ = .sc s) := by
+  cases s <;> cases s' <;> simp [ty2, scLinear] <;> grind
+
+/-- Interpolating two float vectors: accepted iff same space and dimension and `t: f32`. -/
+theorem vec_lerp_iff (n n' : Nat) (sp sp' : Tag) (t τ : Ty) :
+    ty3 .lerp (.vec .f32 n sp) (.vec .f32 n' sp') t = some τ ↔
+      (n = n' ∧ sp = sp' ∧ t = f32 ∧ τ = .vec .f32 n sp) := by
+  simp [ty3, lerpable, affineDiff, scAffineDiff, scLinear, linearScalar, f32]; grind
+
+theorem pt_lerp_iff (n n' : Nat) (sp sp' : Tag) (t τ : Ty) :
+    ty3 .lerp (.pt .f32 n sp) (.pt .f32 n' sp') t = some τ ↔
+      (n = n' ∧ sp = sp' ∧ t = f32 ∧ τ = .pt .f32 n sp) := by
+  simp [ty3, lerpable, affineDiff, scAffineDiff, scLinear, linearScalar, f32]; grind
+
+/-- Interpolating two float colours: accepted iff same colour space and channel count. -/
+theorem col_lerp_iff (n n' : Nat) (sp sp' : Tag) (t τ : Ty) :
+    ty3 .lerp (.col .f32 n sp) (.col .f32 n' sp') t = some τ ↔
+      (n = n' ∧ sp = sp' ∧ t = f32 ∧ τ = .col .f32 n sp) := by
+  simp [ty3, lerpable, affineDiff, linearScalar, f32]; grind
+
+theorem col_mAdd_iff (n n' : Nat) (sp sp' : Tag) (τ : Ty) :
+    ty2 .mAdd (.col .f32 n sp) (.col .f32 n' sp') = some τ ↔
+      (n = n' ∧ sp = sp' ∧ τ = .col .f32 n sp) := by
+  simp [ty2, affineDiff]; grind
+
+/-- Two points can never be added, whatever their tags (operator and `Affine::add`). -/
+theorem pt_add_pt_none (s s' : Sc) (n n' : Nat) (sp sp' : Tag) :
+    ty2 .add (.pt s n sp) (.pt s' n' sp') = none ∧ ty2 .mAdd (.pt s n sp) (.pt s' n' sp') = none := by
+  cases s <;> simp [ty2, tyAdd, affineDiff, scLinear]
+
+/-- point + vector: accepted iff same component type, space tag and component count. -/
+theorem pt_add_vec_iff (s s' : Sc) (n n' : Nat) (sp sp' : Tag) (τ : Ty) :
+    ty2 .add (.pt s n sp) (.vec s' n' sp') = some τ ↔
+      (scLinear s = true ∧ s' = s ∧ n = n' ∧ sp = sp' ∧ τ = .pt s n sp) := by
+  cases s <;> cases s' <;> simp [ty2, tyAdd, affineDiff, scLinear] <;> grind
+
+/-- point − point: accepted iff same type; the result is the vector between them. -/
+theorem pt_sub_pt_iff (s s' : Sc) (n n' : Nat) (sp sp' : Tag) (τ : Ty) :
+    ty2 .sub (.pt s n sp) (.pt s' n' sp') = some τ ↔
+      (scLinear s = true ∧ s' = s ∧ n = n' ∧ sp = sp' ∧ τ = .vec s n sp) := by
+  cases s <;> cases s' <;> simp [ty2, tySub, affineDiff, scLinear] <;> grind
+
+/-- A 4×4 affine map applies to exactly the 3-vectors of its source basis. -/
+theorem apply4_iff (s d : Basis) (v τ : Ty) :
+    ty2 .apply (.mat 4 (.r2r 3 s d)) v = some τ ↔
+      (v = .vec .f32 3 (.real 3 s) ∧ τ = .vec .f32 3 (.real 3 d)) := by
+  simp [ty2, applySig]; grind
+
+theorem applyPt4_iff (s d : Basis) (v τ : Ty) :
+    ty2 .applyPt (.mat 4 (.r2r 3 s d)) v = some τ ↔
+      (v = .pt .f32 3 (.real 3 s) ∧ τ = .pt .f32 3 (.real 3 d)) := by
+  simp [ty2, applyPtSig]; grind
+
+theorem apply3_iff (s d : Basis) (v τ : Ty) :
+    ty2 .apply (.mat 3 (.r2r 2 s d)) v = some τ ↔
+      (v = .vec .f32 2 (.real 2 s) ∧ τ = .vec .f32 2 (.real 2 d)) := by
+  simp [ty2, applySig]; grind
+
+/-- A projective map applies to exactly the 3-points of its source basis and yields a `ProjVec4`;
+it has no `apply_pt`, and its output cannot be fed to any `apply` / `apply_pt` again. -/
+theorem applyProj_iff (s : Basis) (v τ : Ty) :
+    ty2 .apply (.mat 4 (.r2p s)) v = some τ ↔ (v = .pt .f32 3 (.real 3 s) ∧ τ = projVec4) := by
+  simp [ty2, applySig]; grind
+
+theorem applyPt_proj_none (n : Nat) (s : Basis) (v : Ty) : ty2 .applyPt (.mat n (.r2p s)) v = none := by
+  simp [ty2, applyPtSig]
+
+theorem reapply_proj_none (m : Ty) : ty2 .apply m projVec4 = none ∧ ty2 .applyPt m projVec4 = none := by
+  constructor
+  · simp only [ty2]
+    cases hs : applySig m with
+    | none => rfl
+    | some p =>
+      obtain ⟨arg, res⟩ := p
+      unfold applySig at hs
+      split at hs <;> simp at hs <;> obtain ⟨rfl, _⟩ := hs <;> simp [projVec4]
+  · simp only [ty2]
+    cases hs : applyPtSig m with
+    | none => rfl
+    | some p =>
+      obtain ⟨arg, res⟩ := p
+      unfold applyPtSig at hs
+      split at hs <;> simp at hs <;> obtain ⟨rfl, _⟩ := hs <;> simp [projVec4]
+
+/-- Affine ∘ affine: accepted iff same matrix size and dimension and the inner map's destination
+basis is the outer map's source basis. -/
+theorem compose_r2r_iff (n n' k k' : Nat) (i' d s i : Basis) (τ : Ty) :
+    ty2 .compose (.mat n (.r2r k i' d)) (.mat n' (.r2r k' s i)) = some τ ↔
+      (n = n' ∧ k = k' ∧ i' = i ∧ τ = .mat n (.r2r k s d)) := by
+  simp [ty2, tyCompose, composeMap]; grind
+
+/-- Projective ∘ affine. -/
+theorem compose_proj_iff (n n' k : Nat) (i' s i : Basis) (τ : Ty) :
+    ty2 .compose (.mat n (.r2p i')) (.mat n' (.r2r k s i)) = some τ ↔
+      (n = n' ∧ k = 3 ∧ i' = i ∧ τ = .mat n (.r2p s)) := by
+  simp [ty2, tyCompose, composeMap]; grind
+
+/-- Nothing can be composed after a projective map. -/
+theorem compose_after_proj_none (n n' : Nat) (m : Tag) (s : Basis) :
+    ty2 .compose (.mat n m) (.mat n' (.r2p s)) = none ∧ ty2 .thn (.mat n' (.r2p s)) (.mat n m) = none := by
+  cases m <;> simp [ty2, tyCompose, composeMap]
+
+/-- `a.then(&b)` is `b.compose(&a)`. -/
+theorem then_eq_compose (x y : Ty) : ty2 .thn x y = ty2 .compose y x := rfl
+
+theorem inverse_iff (x τ : Ty) :
+    ty1 .inverse x = some τ ↔ ∃ s d, x = .mat 4 (.r2r 3 s d) ∧ τ = .mat 4 (.r2r 3 d s) := by
+  constructor
+  · intro h
+    simp only [ty1] at h
+    split at h <;> simp at h
+    rename_i s d
+    exact ⟨s, d, rfl, h.symm⟩
+  · rintro ⟨s, d, rfl, rfl⟩; simp [ty1]
+
+/-- A projective matrix has no `inverse`, `transpose` or `determinant`. -/
+theorem proj_no_inverse (n : Nat) (s : Basis) :
+    ty1 .inverse (.mat n (.r2p s)) = none ∧ ty1 .transpose (.mat n (.r2p s)) = none ∧
+      ty1 .determinant (.mat n (.r2p s)) = none := by
+  simp [ty1]
+
+/-- Functions that take an `Angle` accept nothing else; in particular no scalar. -/
+theorem angle_param_iff (o : Op1) (ho : o = .rotateX ∨ o = .rotateY ∨ o = .rotateZ) (x τ : Ty) :
+    ty1 o x = some τ ↔ (x = .angle ∧ τ = .mat 4 (.r2r 3 .unit .unit)) := by
+  rcases ho with rfl | rfl | rfl <;> simp [ty1] <;> grind
+
+/-- The only ways from a bare number to an `Angle` are the unit-naming constructors. -/
+theorem angle_ctor_iff (o : Op1) (ho : o = .degs ∨ o = .rads ∨ o = .turns ∨ o = .asin ∨ o = .acos)
+    (x τ : Ty) : ty1 o x = some τ ↔ (x = f32 ∧ τ = .angle) := by
+  rcases ho with rfl | rfl | rfl | rfl | rfl <;> simp [ty1] <;> grind
+
+/-- `Angle(x)` never type-checks, `a.0` is not available on an `Angle`, and `Angle::from` accepts only
+an `Angle`. -/
+theorem angle_opaque (x τ : Ty) :
+    ty1 .angleCtor x = none ∧ ty1 .field0 .angle = none ∧
+      (ty1 .angleFrom x = some τ ↔ (x = .angle ∧ τ = .angle)) := by
+  refine ⟨by simp [ty1], by simp [ty1], ?_⟩
+  simp [ty1]; grind
+
+theorem polar_iff (x y τ : Ty) :
+    ty2 .polar x y = some τ ↔ (x = f32 ∧ y = .angle ∧ τ = .vec .f32 2 .polar) := by
+  simp [ty2]; grind
+
+/-- The vertex shader handed to `render` must output a `ProjVec4`. -/
+theorem render_iff (x τ : Ty) : ty1 .render x = some τ ↔ (x = projVec4 ∧ τ = .unit) := by
+  simp [ty1]; grind
+
+/-- Gamma conversions exist only from the right colour space. -/
+theorem gamma_iff (x τ : Ty) :
+    (ty1 .toLinear x = some τ ↔ (x = .col .f32 3 .rgb ∧ τ = .col .f32 3 .linRgb)) ∧
+    (ty1 .toSrgb x = some τ ↔ (x = .col .f32 3 .linRgb ∧ τ = .col .f32 3 .rgb)) := by
+  constructor
+  · constructor
+    · intro h
+      simp only [ty1] at h
+      split at h
+      · unfold tyColour at h; split at h <;> simp_all
+      · simp at h
+    · rintro ⟨rfl, rfl⟩; simp [ty1, tyColour]
+  · constructor
+    · intro h
+      simp only [ty1] at h
+      split at h
+      · unfold tyColour at h; split at h <;> simp_all
+      · simp at h
+    · rintro ⟨rfl, rfl⟩; simp [ty1, tyColour]
+
+/-- The explicit conversions are always available and change only the tag. -/
+theorem to_changes_tag_only (t sp : Tag) (s : Sc) (n : Nat) :
+    ty1 (.to t) (.vec s n sp) = some (.vec s n t) ∧ ty1 (.to t) (.pt s n sp) = some (.pt s n t) ∧
+      ty1 (.to t) (.mat n sp) = some (.mat n t) ∧ ty1 (.to t) (.col s n sp) = none := by
+  simp [ty1]
+
+
+/-! ## C. Twins: for each misuse class, the program with matching tags or an explicit conversion
+is accepted (statements over arbitrary contexts and arbitrary well-typed operand expressions) -/
+
+section Twins
+variable (Γ : Ctx)
+
+theorem scLinear_diff (s : Sc) (hs : scLinear s = true) : scAffineDiff s = some s := by
+  cases s <;> simp_all [scLinear, scAffineDiff]
+
+/-- **mix-space / mix-dim, vectors**: `a + b`, `a - b`, `a.add(&b)` are accepted iff space tag and
+dimension agree; with an explicit `b.to::<Sp>()` the space no longer matters. -/
+theorem twin_vec_additive (a b : Expr) (o : Op2) (ho : o = .add ∨ o = .sub ∨ o = .mAdd)
+    (s : Sc) (hs : scLinear s = true) (n n' : Nat) (sp sp' : Tag)
+    (ha : infer Γ a = some (.vec s n sp)) (hb : infer Γ b = some (.vec s n' sp')) :
+    (infer Γ (.bin o a b) = some (.vec s n sp) ↔ (n = n' ∧ sp = sp')) ∧
+    (infer Γ (.bin o a b) = none ↔ ¬ (n = n' ∧ sp = sp')) ∧
+    (n = n' → infer Γ (.bin o a (.un (.to sp) b)) = some (.vec s n sp)) := by
+  have hd := scLinear_diff s hs
+  rcases ho with rfl | rfl | rfl <;>
+    simp [infer, ha, hb, ty1, ty2, tyAdd, tySub, affineDiff, hd, hs] <;> grind
+
+-- hypotheses met by `v1`, `v2` of the corpus context
+example := twin_vec_additive Retro.TypeCorpus.Γ v1 v2 .add (by simp) .f32 rfl 3 3 _ _ rfl rfl
+example : infer Retro.TypeCorpus.Γ (.bin .add v1 v2) = none := by decide
+example : infer Retro.TypeCorpus.Γ (.bin .add v1 (.un (.to (.real 3 (.named 1))) v2)) = some (.vec .f32 3 (.real 3 (.named 1))) := by
+  decide
+
+/-- **mix-space, interpolation**: `a.lerp(&b, t)` on float vectors. -/
+theorem twin_vec_lerp (a b t : Expr) (n n' : Nat) (sp sp' : Tag)
+    (ha : infer Γ a = some (.vec .f32 n sp)) (hb : infer Γ b = some (.vec .f32 n' sp'))
+    (ht : infer Γ t = some f32) :
+    (infer Γ (.ter .lerp a b t) = some (.vec .f32 n sp) ↔ (n = n' ∧ sp = sp')) ∧
+    (infer Γ (.ter .lerp a b t) = none ↔ ¬ (n = n' ∧ sp = sp')) ∧
+    (n = n' → infer Γ (.ter .lerp a (.un (.to sp) b) t) = some (.vec .f32 n sp)) := by
+  simp [infer, ha, hb, ht, ty1, ty3, lerpable, affineDiff, scAffineDiff, scLinear, linearScalar, f32]
+  grind
+
+example := twin_vec_lerp Retro.TypeCorpus.Γ v1 v2 s 3 3 _ _ rfl rfl rfl
+
+/-- **mix-space, colours**: colours of different spaces cannot be interpolated or added; the twin
+converts explicitly (`Color` has no `to`, the conversion functions are the explicit conversion). -/
+theorem twin_col_lerp (a b t : Expr)
+    (ha : infer Γ a = some (.col .f32 3 .rgb)) (hb : infer Γ b = some (.col .f32 3 .hsl))
+    (ht : infer Γ t = some f32) :
+    infer Γ (.ter .lerp a b t) = none ∧ infer Γ (.bin .mAdd a b) = none ∧
+    infer Γ (.un (.to .rgb) b) = none ∧
+    infer Γ (.ter .lerp a (.un .toRgb b) t) = some (.col .f32 3 .rgb) ∧
+    infer Γ (.bin .mAdd a (.un .toRgb b)) = some (.col .f32 3 .rgb) := by
+  simp [infer, ha, hb, ht, ty1, ty2, ty3, tyColour, lerpable, affineDiff, linearScalar, f32]
+
+example := twin_col_lerp Retro.TypeCorpus.Γ c1 c2 s rfl rfl rfl
+
+/-- **add-points**: `p + q` is rejected for every pair of points; the twins `p + (q - p)` and
+`p + q.to_vec()` are accepted. -/
+theorem twin_add_points (p q : Expr) (s : Sc) (hs : scLinear s = true) (n : Nat) (sp : Tag)
+    (hp : infer Γ p = some (.pt s n sp)) (hq : infer Γ q = some (.pt s n sp)) :
+    infer Γ (.bin .add p q) = none ∧ infer Γ (.bin .mAdd p q) = none ∧
+    infer Γ (.bin .add p (.bin .sub q p)) = some (.pt s n sp) ∧
+    infer Γ (.bin .add p (.un .toVec q)) = some (.pt s n sp) := by
+  simp [infer, hp, hq, ty1, ty2, tyAdd, tySub, affineDiff, hs]
+
+example := twin_add_points Retro.TypeCorpus.Γ p1 p1 .f32 rfl 3 _ rfl rfl
+
+/-- **apply-outside-source**: `m.apply(&v)` is accepted iff `v` lives in the map's source basis;
+`v.to::<Real<3, Src>>()` is the explicit twin. -/
+theorem twin_apply (m v : Expr) (s d s' : Basis)
+    (hm : infer Γ m = some (.mat 4 (.r2r 3 s d))) (hv : infer Γ v = some (.vec .f32 3 (.real 3 s'))) :
+    (infer Γ (.bin .apply m v) = some (.vec .f32 3 (.real 3 d)) ↔ s' = s) ∧
+    (infer Γ (.bin .apply m v) = none ↔ s' ≠ s) ∧
+    infer Γ (.bin .apply m (.un (.to (.real 3 s)) v)) = some (.vec .f32 3 (.real 3 d)) := by
+  simp [infer, hm, hv, ty1, ty2, applySig]
+
+example := twin_apply Retro.TypeCorpus.Γ m12 v2 _ _ _ rfl rfl
+
+theorem twin_apply_pt (m v : Expr) (s d s' : Basis)
+    (hm : infer Γ m = some (.mat 4 (.r2r 3 s d))) (hv : infer Γ v = some (.pt .f32 3 (.real 3 s'))) :
+    (infer Γ (.bin .applyPt m v) = some (.pt .f32 3 (.real 3 d)) ↔ s' = s) ∧
+    (infer Γ (.bin .applyPt m v) = none ↔ s' ≠ s) ∧
+    infer Γ (.bin .applyPt m (.un (.to (.real 3 s)) v)) = some (.pt .f32 3 (.real 3 d)) := by
+  simp [infer, hm, hv, ty1, ty2, applyPtSig]
+
+example := twin_apply_pt Retro.TypeCorpus.Γ m12 p2 _ _ _ rfl rfl
+
+/-- **compose-mismatch**: `outer.compose(&inner)` is accepted iff the inner destination basis is the
+outer source basis; `inner.then(&outer)` is the same program; an explicit `to` fixes the tags. -/
+theorem twin_compose (outer inner : Expr) (n k : Nat) (i' d s i : Basis)
+    (ho : infer Γ outer = some (.mat n (.r2r k i' d))) (hi : infer Γ inner = some (.mat n (.r2r k s i))) :
+    (infer Γ (.bin .compose outer inner) = some (.mat n (.r2r k s d)) ↔ i' = i) ∧
+    (infer Γ (.bin .compose outer inner) = none ↔ i' ≠ i) ∧
+    infer Γ (.bin .thn inner outer) = infer Γ (.bin .compose outer inner) ∧
+    infer Γ (.bin .compose outer (.un (.to (.r2r k s i')) inner)) = some (.mat n (.r2r k s d)) := by
+  simp [infer, ho, hi, ty1, ty2, tyCompose, composeMap]
+
+example := twin_compose Retro.TypeCorpus.Γ m12 m12 4 3 _ _ _ _ rfl rfl
+
+/-- **wrong order**: for maps `f : S → I` and `g : I → D` with `S ≠ D`, `f.compose(&g)` is rejected
+while `g.compose(&f)` and `f.then(&g)` are accepted. -/
+theorem twin_compose_order (f g : Expr) (n k : Nat) (s i d : Basis) (hsd : d ≠ s)
+    (hf : infer Γ f = some (.mat n (.r2r k s i))) (hg : infer Γ g = some (.mat n (.r2r k i d))) :
+    infer Γ (.bin .compose f g) = none ∧
+    infer Γ (.bin .compose g f) = some (.mat n (.r2r k s d)) ∧
+    infer Γ (.bin .thn f g) = some (.mat n (.r2r k s d)) := by
+  simp [infer, hf, hg, ty2, tyCompose, composeMap]
+  intro h; exact absurd h.symm hsd
+
+example := twin_compose_order Retro.TypeCorpus.Γ m12 m23 4 3 (.named 1) (.named 2) (.named 3) (by decide) rfl rfl
+
+/-- **projective-as-affine**: a projective matrix cannot be inverted, transposed, applied with
+`apply_pt`, applied twice, or have anything composed after it; the twins project a point once, or
+re-tag the matrix explicitly before inverting. -/
+theorem twin_projective (m p g : Expr) (s d : Basis) (tg : Tag)
+    (hm : infer Γ m = some (.mat 4 (.r2p s))) (hp : infer Γ p = some (.pt .f32 3 (.real 3 s)))
+    (hg : infer Γ g = some (.mat 4 tg)) :
+    infer Γ (.un .inverse m) = none ∧ infer Γ (.un .transpose m) = none ∧
+    infer Γ (.bin .applyPt m p) = none ∧ infer Γ (.bin .apply m (.bin .apply m p)) = none ∧
+    infer Γ (.bin .compose g m) = none ∧ infer Γ (.bin .thn m g) = none ∧
+    infer Γ (.bin .apply m p) = some projVec4 ∧
+    infer Γ (.un .inverse (.un (.to (.r2r 3 s d)) m)) = some (.mat 4 (.r2r 3 d s)) := by
+  have := (compose_after_proj_none 4 4 tg s)
+  simp only [ty2] at this
+  simp [infer, hm, hp, hg, ty1, ty2, applySig, applyPtSig, projVec4, this.1, this.2]
+
+example := twin_projective Retro.TypeCorpus.Γ mp1 p1 m12 (.named 1) (.named 2) _ rfl rfl rfl
+
+/-- **angle-unit**: a bare `f32` is rejected wherever an `Angle` is required and cannot be wrapped
+by the tuple constructor or `From`; the twin names the unit. An `Angle`'s raw field is not readable;
+the twin asks for a unit. -/
+theorem twin_angle (x a : Expr) (hx : infer Γ x = some f32) (ha : infer Γ a = some .angle) :
+    infer Γ (.un .rotateX x) = none ∧ infer Γ (.bin .polar x x) = none ∧
+    infer Γ (.un .angleCtor x) = none ∧ infer Γ (.un .angleFrom x) = none ∧
+    infer Γ (.un .field0 a) = none ∧ infer Γ (.bin .add a x) = none ∧
+    infer Γ (.un .rotateX (.un .degs x)) = some (.mat 4 (.r2r 3 .unit .unit)) ∧
+    infer Γ (.bin .polar x (.un .turns x)) = some (.vec .f32 2 .polar) ∧
+    infer Γ (.un .toRads a) = some f32 ∧
+    infer Γ (.bin .add a (.un .rads x)) = some .angle := by
+  simp [infer, hx, ha, ty1, ty2, tyAdd, f32]
+
+example := twin_angle Retro.TypeCorpus.Γ s a rfl rfl
+
+/-- **colour-space**: gamma-expanding an HSL colour is rejected; converting to RGB first is accepted. -/
+theorem twin_colour (c : Expr) (hc : infer Γ c = some (.col .f32 3 .hsl)) :
+    infer Γ (.un .toLinear c) = none ∧ infer Γ (.un .toHsl c) = none ∧
+    infer Γ (.un .toLinear (.un .toLinear (.un .toRgb c))) = none ∧
+    infer Γ (.un .toLinear (.un .toRgb c)) = some (.col .f32 3 .linRgb) := by
+  simp [infer, hc, ty1, tyColour]
+
+example := twin_colour Retro.TypeCorpus.Γ c2 rfl
+
+/-- **shader-output-space**: a vertex shader returning a model-space point or vector does not fit
+`render`; one returning the projected point does. -/
+theorem twin_shader (m p : Expr) (s : Basis)
+    (hm : infer Γ m = some (.mat 4 (.r2p s))) (hp : infer Γ p = some (.pt .f32 3 (.real 3 s))) :
+    infer Γ (.un .render p) = none ∧ infer Γ (.un .render (.un .toVec p)) = none ∧
+    infer Γ (.un .render (.bin .apply m p)) = some .unit := by
+  simp [infer, hm, hp, ty1, ty2, applySig, projVec4]
+
+example := twin_shader Retro.TypeCorpus.Γ mp1 p1 (.named 1) rfl rfl
+
+end Twins
+
+/-- What "the twin is accepted" means for each misuse class (the conclusions of the `twin_*`
+theorems above, restricted to the accepted half). -/
+def Twin : Misuse → Prop
+  | .mixSpace => ∀ (Γ : Ctx) (a b : Expr) (o : Op2), (o = .add ∨ o = .sub ∨ o = .mAdd) →
+      ∀ (s : Sc), scLinear s = true → ∀ (n : Nat) (sp sp' : Tag),
+        infer Γ a = some (.vec s n sp) → infer Γ b = some (.vec s n sp') →
+        infer Γ (.bin o a (.un (.to sp) b)) = some (.vec s n sp)
+  | .mixDim => ∀ (Γ : Ctx) (a b : Expr) (o : Op2), (o = .add ∨ o = .sub ∨ o = .mAdd) →
+      ∀ (s : Sc), scLinear s = true → ∀ (n : Nat) (sp : Tag),
+        infer Γ a = some (.vec s n sp) → infer Γ b = some (.vec s n sp) →
+        infer Γ (.bin o a b) = some (.vec s n sp)
+  | .addPoints => ∀ (Γ : Ctx) (p q : Expr) (s : Sc), scLinear s = true → ∀ (n : Nat) (sp : Tag),
+      infer Γ p = some (.pt s n sp) → infer Γ q = some (.pt s n sp) →
+      infer Γ (.bin .add p (.bin .sub q p)) = some (.pt s n sp)
+  | .applySource => ∀ (Γ : Ctx) (m v : Expr) (s d s' : Basis),
+      infer Γ m = some (.mat 4 (.r2r 3 s d)) → infer Γ v = some (.vec .f32 3 (.real 3 s')) →
+      infer Γ (.bin .apply m (.un (.to (.real 3 s)) v)) = some (.vec .f32 3 (.real 3 d))
+  | .composeMismatch => ∀ (Γ : Ctx) (outer inner : Expr) (n k : Nat) (i' d s i : Basis),
+      infer Γ outer = some (.mat n (.r2r k i' d)) → infer Γ inner = some (.mat n (.r2r k s i)) →
+      infer Γ (.bin .compose outer (.un (.to (.r2r k s i')) inner)) = some (.mat n (.r2r k s d))
+  | .projAsAffine => ∀ (Γ : Ctx) (m p : Expr) (s d : Basis),
+      infer Γ m = some (.mat 4 (.r2p s)) → infer Γ p = some (.pt .f32 3 (.real 3 s)) →
+      infer Γ (.bin .apply m p) = some projVec4 ∧
+      infer Γ (.un .inverse (.un (.to (.r2r 3 s d)) m)) = some (.mat 4 (.r2r 3 d s))
+  | .angleUnit => ∀ (Γ : Ctx) (x : Expr), infer Γ x = some f32 →
+      infer Γ (.un .rotateX (.un .degs x)) = some (.mat 4 (.r2r 3 .unit .unit))
+  | .colourSpace => ∀ (Γ : Ctx) (c : Expr), infer Γ c = some (.col .f32 3 .hsl) →
+      infer Γ (.un .toLinear (.un .toRgb c)) = some (.col .f32 3 .linRgb)
+  | .shaderOutput => ∀ (Γ : Ctx) (m p : Expr) (s : Basis),
+      infer Γ m = some (.mat 4 (.r2p s)) → infer Γ p = some (.pt .f32 3 (.real 3 s)) →
+      infer Γ (.un .render (.bin .apply m p)) = some .unit
+
+/-- **Twins.** For every misuse class the well-typed twin is accepted. -/
+theorem twin_accepts (m : Misuse) : Twin m := by
+  cases m
+  case mixSpace =>
+    intro Γ a b o ho s hs n sp sp' ha hb
+    exact (twin_vec_additive Γ a b o ho s hs n n sp sp' ha hb).2.2 rfl
+  case mixDim =>
+    intro Γ a b o ho s hs n sp ha hb
+    exact (twin_vec_additive Γ a b o ho s hs n n sp sp ha hb).1.mpr ⟨rfl, rfl⟩
+  case addPoints =>
+    intro Γ p q s hs n sp hp hq
+    exact (twin_add_points Γ p q s hs n sp hp hq).2.2.1
+  case applySource =>
+    intro Γ m v s d s' hm hv
+    exact (twin_apply Γ m v s d s' hm hv).2.2
+  case composeMismatch =>
+    intro Γ outer inner n k i' d s i ho hi
+    exact (twin_compose Γ outer inner n k i' d s i ho hi).2.2.2
+  case projAsAffine =>
+    intro Γ m p s d hm hp
+    have h := twin_projective Γ m p m s d (.r2p s) hm hp hm
+    exact ⟨h.2.2.2.2.2.2.1, h.2.2.2.2.2.2.2⟩
+  case angleUnit =>
+    intro Γ x hx
+    simp [infer, hx, ty1, f32]
+  case colourSpace =>
+    intro Γ c hc
+    exact (twin_colour Γ c hc).2.2.2
+  case shaderOutput =>
+    intro Γ m p s hm hp
+    exact (twin_shader Γ m p s hm hp).2.2
+
+/-! ### The hand-written corpus (`Retro/Spec/TypeCorpus.lean`, compiled by rustc on every run) -/
+
+/-- A corpus pair is well-formed for the model: the misuse is rejected with the stated class, the twin
+is accepted. -/
+def pairOk (p : Pair) : Bool :=
+  classify Γ p.bad == .misuse p.cls &&
+    (match classify Γ p.good with
+     | .accept _ => true
+     | _ => false)
+
+/-- Every one of the corpus's minimal programs is rejected by the tag algebra with the misuse class
+it is filed under, and its twin is accepted (a finite statement about the driver's context, by
+evaluation). -/
+theorem corpus_pairs_classified : pairs.all pairOk = true := by decide
+
+/-- Every misuse class has a pair in the corpus. -/
+theorem corpus_covers_classes :
+    [Misuse.mixSpace, .mixDim, .addPoints, .applySource, .composeMismatch, .projAsAffine, .angleUnit,
+      .colourSpace, .shaderOutput].all (fun m => pairs.any (fun p => p.cls == m)) = true := by decide
+
+/-! ### Concrete programs (tests, not theorems) over the corpus context -/
+
+-- v1 * v2 is rejected for no tag reason
+example : classify Γ (.bin .mul v1 v2) = .other := by decide
+-- m21.apply(&m12.apply(&v1)) : Vec3<B1>
+example : classify Γ (.bin .apply m21 (.bin .apply m12 v1)) = .accept (.vec .f32 3 (.real 3 (.named 1))) := by
+  decide
+-- m23.compose(&m12) and m12.then(&m23) : B1 → B3
+example : classify Γ (.bin .compose m23 m12) = .accept (.mat 4 (.r2r 3 (.named 1) (.named 3))) := by decide
+example : classify Γ (.bin .thn m12 m23) = .accept (.mat 4 (.r2r 3 (.named 1) (.named 3))) := by decide
+-- mp1.compose(&m21) : RealToProj<B2>
+example : classify Γ (.bin .compose mp1 m21) = .accept (.mat 4 (.r2p (.named 2))) := by decide
 
 end Retro.Props.C10
